@@ -54,6 +54,13 @@ def prepVisit (rules : List Rule) (root : Str) (fs : FS) (absPath : Str) (node :
             -- `filepath.IsLocal(Rel(absRoot, real))`: the real path is the root or below it
             if !(absRoot.isPrefixOf real) then (fs, .fail)
             else
+              -- a link must also be relative and stay inside the package as written (the package
+              -- directory is renamed after the walk)
+              let linkOK := match node with
+                | .link t => !isAbs t && isLocal (pathJoin (pathDir rel) t)
+                | _ => true
+              if !linkOK then (fs, .fail)
+              else
               match fs.lookup real with
               | some (.file _ _ _) => (fs, .cont)
               | some (.dir _ _) => (fs, .cont)
